@@ -59,6 +59,12 @@ check("C02", "model_checking",
       "trees of <= 3 sub-tracks stand for all trees; f32 summation order is not specified, so comparison is within 4e-6 (signals are >= 2^-7); built-in effects are replaced by order-sensitive probe effects here (their DSP is C13/C14's subject).",
       "DESIGN.md §3 C02")
 
+check("C12", "model_checking",
+      "exhaustive history enumeration on real track trees in lock-step with a tree-freeze / removal reference model (index-coded sounds make positions audible)",
+      "Three tree shapes (chain of 2, chain of 3, parent with two children), every track carrying an index-coded looping probe sound, x 3 persistence variants x every history of length <= 3 (4 thorough) over {none, start clock, remove clock} and per track {pause instant / 2 frames, resume instant / 2 frames, resume_at delayed, resume_at on a clock, drop handle, finish sound, add nested child, add nested child then drop the handle, play sound then drop the handle}; each letter is followed by a 3-frame callback with internal buffer 2. After every callback the rendered audio is compared exactly with the reference (a frozen subtree is silent and every sound continues with exactly the next index after a resume; removal at the next callback / the one after if not adopted / never while a descendant track is alive / not before a persisting track's sounds finished) and TrackHandle::state() of every live handle is called inside catch_unwind and compared with the model's state.",
+      "what a track whose scheduled resume can never happen should report is not fixed by the statement beyond 'one of the five states' (reference: Paused); partition independence of these behaviours is C11's subject.",
+      "DESIGN.md §3 C12")
+
 NOT_YET = {}
 
 def main():
